@@ -236,7 +236,7 @@ InvTypeOK == Started => TypeOK(s)
 InvLinksRule == Started => LinksRule(s)
 InvNoFreeReferenced == Started => NoFreeReferenced(s)
 InvBalancedIsConsistent == Started => BalancedIsConsistent(s)
-InvNoLeak == Started => s.leak = 0 /\ s.zomb = {}
+InvNoLeak == Started => NoLeak(s)
 \* RecLenChainCoversBlock /\ live names = model, for every directory; htree: sorted index, hash ranges partition
 InvLayout == Started => \A d \in DOMAIN s.ent :
                 /\ d \in DOMAIN L
